@@ -16,6 +16,13 @@ import Parsley.Spec.Fig9
   judge  :  decodes <enc>, checks it is well-formed and renders to exactly <hex stream>, and compares
             the implementation's output with `Fig9.expected` (never calls the model).
 
+  opv case :  opv <maxDepth> <hex stream> <enc>     OPERAND-VALUE sweep: same format and same oracle as `walk`; the
+            numeric operands written directly in front of an operator may be spelled `[-] d* [. d*]` WITHOUT the 18+18
+            digit limit of `Fig9.numOK` (`numWide`).  `Fig9.expected` never looks at the value of a number, so the expected
+            token list is that of the tree - compared EXACTLY, separator tokens included.  Only when some number has more
+            than 38 digits (beyond what every implementation must represent: 10^38 - 1 < 2^127) the extractor may instead
+            reject the stream (`err`): an implementation limit; any `ok` answer must still be the exact list.
+
   cut case :  cut <maxDepth> <hex stream> <enc>     <hex stream> is a strict PREFIX of the rendering of the
             well-formed program <enc> (known operators only), the rest lying behind the window of a view case:
             the extractor must answer `err`, or the tokens it returns must be a prefix of `Fig9.expected <enc>`.
@@ -146,6 +153,40 @@ def winOf : List String → Option Bytes
 
 def model (line : String) : String := Views.model winOf modelPlain line
 
+/-! ### numbers beyond `Fig9.numOK` (spec side, written from ISO 32000-1 7.3.3; never calls the model)
+
+  `numWide` is `Fig9.numOK` without its length limit: optional `-`, digits, optionally a dot and digits, at least one
+  digit or the dot.  The judge admits such spellings for the operands written directly in front of an operator
+  (not inside arrays / dictionaries, whose numbers the object parser reads with a 64-bit accumulator). -/
+def numWide (sp : Bytes) : Bool :=
+  let body := match sp with | 45 :: t => t | _ => sp
+  let ip := body.takeWhile Fig9.isDigit
+  let rest := body.dropWhile Fig9.isDigit
+  match rest with
+  | [] => !ip.isEmpty
+  | 46 :: fp => fp.all Fig9.isDigit
+  | _ => false
+
+def numDigits (sp : Bytes) : Nat := (sp.filter Fig9.isDigit).length
+
+def narrowArg (a : Operand × Bytes) : Operand × Bytes :=
+  match a.1 with
+  | .atom (.num sp) => if numWide sp then (.atom (.num [48]), a.2) else a
+  | _ => a
+
+/-- the tree with every wide top-level number replaced by `0`: well-formedness of everything else is `Fig9.Prog.ok` -/
+def narrow (p : Prog) : Prog :=
+  { p with insts := p.insts.map fun i => { i with args := i.args.map narrowArg } }
+
+def okWide (p : Prog) : Bool := (narrow p).ok
+
+/-- some top-level number has more than 38 digits: the stream may be rejected for an implementation limit -/
+def overLimit (p : Prog) : Bool :=
+  p.insts.any fun i => i.args.any fun a =>
+    match a.1 with
+    | .atom (.num sp) => decide (numDigits sp > 38)
+    | _ => false
+
 def judgePlain (case impl : String) : String :=
   match words case with
   | ["cut", _, hex, enc] =>
@@ -176,12 +217,14 @@ def judgePlain (case impl : String) : String :=
   | [_, d, hex, enc] =>
     match d.toNat?, bytesOfHex hex, decProg enc with
     | some d, some s, some p =>
-      if !(p.ok && d ≥ 1) then "bad ill-formed-case tree is outside the spec's domain"
+      if !(okWide p && d ≥ 1) then "bad ill-formed-case tree is outside the spec's domain"
       else if p.render != s then "bad case-mismatch tree does not render to the stream"
       else
+        -- EXACT comparison of the token list (separator tokens are never collapsed)
         let e := showExpected (expected p)
         let i := impl.trimAscii.toString
         if e == i then "ok"
+        else if i == "err" && overLimit p then "ok"
         else if i == "hang" then s!"bad nontermination expected={e}"
         else if i.startsWith "panic" || i.startsWith "crash" then s!"bad panic expected={e}"
         else if e == "err" then s!"bad accepts-invalid expected=err"
@@ -210,7 +253,15 @@ def gsep : G Bytes := do if (← gnat 3) == 0 then return [] else gsepNE
 
 def digits (n : Nat) : G Bytes := grep n (do return UInt8.ofNat (48 + (← gnat 10)))
 
+/-- boundary spellings inside `Fig9.numOK` (zeros in every spelling, small values, i32 boundaries, longest spellings);
+    the operand-value sweep below (`opvSweep`) has the full set -/
+def numPool : List Bytes :=
+  (["0", "0", "0", "-0", "0.0", ".0", "0.", "00", "-0.00", "-.0", ".", "-.", "1", "-1", "0.5", "1.0", "-1.0", "1.", "2147483647",
+    "2147483648", "-2147483648", "-2147483649", "4294967296", "999999999999999999", "-999999999999999999",
+    "999999999999999999.999999999999999999", "0.000000000000000000", "000000000000000000"].map strBytes).filter numOK
+
 def gnum : G Atom := do
+  if (← gnat 4) == 0 then return .num (← gpick numPool)
   let neg ← gnat 4
   let ni ← gpick [0, 1, 1, 2, 3, 5, 9, 18]
   let ip ← digits ni
@@ -289,8 +340,20 @@ def unknownOps : List Bytes := [b "foo", b "XYZ", b "q1", b "T", b "Tjj", b "b**
 
 def permitted (n : Node) : List Bytes := (catTable.map (·.1)).filter (fun op => (step n op).isSome)
 
+/-- number of numeric operands of the text-state / text-positioning operators (ISO 32000-1 Tables 105, 108) -/
+def numArity (op : Bytes) : Option Nat :=
+  if op == Fig9.Td || op == Fig9.TD then some 2
+  else if op == b "Tm" then some 6
+  else if op == b "Tc" || op == b "Tw" || op == b "Tz" || op == b "TL" || op == b "Ts" || op == b "Tr" then some 1
+  else none
+
 def mkInst (op : Bytes) : G Inst := do
-  let args ← if catOf op == some .textShowing then gshowArgs op else gargsAny
+  let args ← if catOf op == some .textShowing then gshowArgs op
+    else match numArity op with
+      | some k =>
+        -- every other time the operands the standard prescribes (numbers, boundary spellings included)
+        if (← gnat 2) == 0 then gargsAny else grep k (do return (.atom (← gnum), ← gsepNE))
+      | none => gargsAny
   return { args := args, op := op, after := ← gsepNE }
 
 /-- a random walk over Figure 9 (state tracked with the spec automaton) -/
@@ -464,6 +527,141 @@ def cutWindows (emit : String → IO Unit) (seed nprogs : Nat) : IO Unit := do
           | some l => emit l
           | none => pure ()
 
+/-! ### operand-value sweep (kind `opv`)
+
+  Every operator of Table 51 that takes numeric operands and has a documented effect on the token list (or none):
+  the text-positioning operators `Td TD Tm T*`, the text-state operators `Tc Tw Tz TL Tf Tr Ts`, and `'` `"`
+  (ISO 32000-1 Tables 105, 108, 109: operand lists written from the standard, not from the Rust table).
+  The numeric operands run over a boundary set of SPELLINGS - zeros (`0 -0 0.0 .0 0. 00 . -. -0.00` ...: some lex to
+  the integer 0, some to a real 0), small values, integer-valued reals (`1.0`), the i32 / u32 / i64 / u64 / i128
+  boundaries and their neighbours, 38- / 39- / 40-digit numbers - in every position, as all-equal tuples, and (two
+  operands) as pairs; the instance is placed between two shown strings, at the start / end of a text object, alone,
+  twice in a row, inside a compatibility section, and (text state) at page level.  The separator token of
+  `Td TD T*` does not depend on the operands: `Fig9.expected` says so and the judge compares exactly. -/
+
+structure NumOp where
+  op : Bytes
+  pre : List Operand     -- operands in front of the numbers
+  k : Nat                -- number of numeric operands
+  post : List Operand    -- operands behind the numbers
+
+def numOps : List NumOp := [
+  ⟨Fig9.Td, [], 2, []⟩, ⟨Fig9.TD, [], 2, []⟩, ⟨Fig9.Tstar, [], 0, []⟩, ⟨b "Tm", [], 6, []⟩,
+  ⟨b "TL", [], 1, []⟩, ⟨b "Tc", [], 1, []⟩, ⟨b "Tw", [], 1, []⟩, ⟨b "Tz", [], 1, []⟩, ⟨b "Ts", [], 1, []⟩,
+  ⟨b "Tr", [], 1, []⟩, ⟨b "Tf", [.atom (.name (b "F1"))], 1, []⟩,
+  ⟨Fig9.quote, [], 0, [.atom (.lit (b "q"))]⟩, ⟨Fig9.dquote, [], 2, [.atom (.lit (b "dq"))]⟩]
+
+def nines (n : Nat) : String := String.ofList (List.replicate n '9')
+def zeros (n : Nat) : String := String.ofList (List.replicate n '0')
+
+/-- spellings of zero -/
+def zeroVals : List String :=
+  ["0", "-0", "0.0", ".0", "0.", "00", "-0.00", "-.0", ".", "-.", "-0.", "000.000", "0." ++ zeros 18, zeros 18]
+
+def smallVals : List String :=
+  ["1", "-1", "0.5", "-0.5", ".5", "1.0", "-1.0", "1.", "01", "1.50", "10", "0.1", "-0.0001", "12", "-14.5", "1000", "-1000"]
+
+/-- i32 / u32 / i64 / u64 / i128 boundaries with neighbours, integer-valued reals at the boundaries, long spellings -/
+def boundVals : List String :=
+  ["2147483647", "2147483648", "-2147483648", "-2147483649", "4294967295", "4294967296", "2147483647.0",
+   nines 18, "-" ++ nines 18, nines 18 ++ "." ++ nines 18,
+   "9223372036854775807", "9223372036854775808", "-9223372036854775808", "-9223372036854775809",
+   "9223372036854775807.", "9223372036854775807.0", "9223372036854775808.", "-9223372036854775808.",
+   "18446744073709551615", "18446744073709551616",
+   nines 38, "-" ++ nines 38, nines 19 ++ "." ++ nines 19, "." ++ nines 38, "0." ++ zeros 37,
+   "170141183460469231731687303715884105727", "170141183460469231731687303715884105728",
+   "-170141183460469231731687303715884105727", "-170141183460469231731687303715884105728",
+   "17014118346046923173168730371588410572.7", "17014118346046923173168730371588410572.8",
+   nines 39, "1" ++ zeros 38, "1" ++ zeros 39, "0." ++ zeros 38, "0." ++ zeros 39, "1." ++ zeros 38,
+   zeros 40, zeros 39 ++ "1", "-" ++ nines 40]
+
+def allVals : List String := zeroVals ++ smallVals ++ boundVals
+/-- the values for pairs -/
+def coreVals : List String := zeroVals.take 11 ++ ["1", "-1", "0.5", "1.0"]
+
+def numO (s : String) : Operand := .atom (.num (b s))
+def sp1 (o : Operand) : Operand × Bytes := (o, b " ")
+
+def opvInst (o : NumOp) (vals : List Operand) : Inst :=
+  { args := (o.pre ++ vals ++ o.post).map sp1, op := o.op, after := b " " }
+
+def tjInst (s : String) : Inst := { args := [sp1 (.atom (.lit (b s)))], op := Fig9.Tj, after := b " " }
+def op0 (op : Bytes) : Inst := { args := [], op := op, after := b " " }
+
+def nPlacements : Nat := 7
+
+/-- where the instances under test stand; `none` = placement not applicable -/
+def place (pl : Nat) (pageOK : Bool) (xs : List Inst) : Option Prog :=
+  let bt := op0 Fig9.BT
+  let et := op0 Fig9.ET
+  let insts : Option (List Inst) :=
+    match pl with
+    | 0 => some ([bt, tjInst "a"] ++ xs ++ [tjInst "b", et])            -- between two shown strings
+    | 1 => some ([bt] ++ xs ++ [tjInst "b", et])                         -- start of the text object
+    | 2 => some ([bt, tjInst "a"] ++ xs ++ [et])                         -- end of the text object
+    | 3 => some ([bt] ++ xs ++ [et])                                     -- alone
+    | 4 => some ([bt, tjInst "a"] ++ xs ++ xs ++ [tjInst "b", et])       -- twice in a row
+    | 5 => some ([op0 Fig9.BX, bt, tjInst "a"] ++ xs ++ [tjInst "b", et, op0 Fig9.EX])  -- compatibility section
+    | _ => if pageOK then some (xs ++ [bt, tjInst "a", et]) else none    -- page level (text state only)
+  insts.map fun is => { lead := [], insts := fixLast is [] }
+
+def setNth (l : List α) (i : Nat) (x : α) : List α := l.take i ++ [x] ++ l.drop (i + 1)
+
+/-- operands that are not numbers -/
+def otherKinds : List Operand :=
+  [.atom (.name (b "N")), .atom (.lit (b "s")), .atom (.hex (b "41")), .atom (.bool true), .atom .null,
+   .arr [] [(.num (b "0"), b " ")], .dict [] [(b "A", b " ", .num (b "0"), b " ")]]
+
+def opvSweep (emitP : String → Nat → Prog → IO Unit) (thorough : Bool) : IO Unit := do
+  let out (pls : List Nat) (o : NumOp) (xs : List Inst) : IO Unit := do
+    let pageOK := (step .page o.op).isSome
+    for pl in pls do
+      match place pl pageOK xs with
+      | some p => emitP "opv" 4 p
+      | none => pure ()
+  let allPl := List.range nPlacements
+  let mut c := 0
+  for o in numOps do
+    let k := o.k
+    let tup (vs : List String) : List Inst := [opvInst o (vs.map numO)]
+    -- A: all-equal tuples (k = 0: the bare operator)
+    if k == 0 then out allPl o (tup [])
+    else
+      for v in allVals do out allPl o (tup (List.replicate k v))
+    if k ≥ 2 then
+      -- B: every value in every position, the other positions 0 resp. 1
+      for base in ["0", "1"] do
+        for i in List.range k do
+          for v in allVals do
+            c := c + 1
+            let pls := if thorough then allPl else [0, 1 + c % 5]
+            out pls o (tup (setNth (List.replicate k base) i v))
+      -- D: a different spelling of zero in every position
+      for r in List.range zeroVals.length do
+        out allPl o (tup ((List.range k).map fun i => zeroVals[(r + i) % zeroVals.length]?.getD "0"))
+    if k == 2 then
+      -- C: pairs
+      for v in coreVals do
+        for w in coreVals do
+          c := c + 1
+          let pls := if thorough then allPl else [0, 2, 4]
+          out pls o (tup [v, w])
+    -- E: operand count off (zeros): the separator of a line move does not depend on it; `'` `"` must be rejected
+    for n in [0, k - 1, k + 1, 2 * k + 1].eraseDups do
+      if n != k then out [0, 3, 5] o (tup (List.replicate n "0"))
+    -- F: another kind of operand in one numeric position
+    for i in List.range k do
+      for x in otherKinds do
+        out [0, 3] o [opvInst o (setNth ((List.replicate k "0").map numO) i x)]
+    -- G: a `+` makes the token an (unknown) operator, which takes the operands in front of it: error outside a
+    --    compatibility section, ignored inside (the operator under test then sees the remaining operands)
+    for i in List.range k do
+      for pz in ["+0", "+1", "+.5", "+0.0"] do
+        let front := (o.pre ++ (List.replicate i "0").map numO).map sp1
+        let back := ((List.replicate (k - 1 - i) "0").map numO ++ o.post).map sp1
+        let xs : List Inst := [{ args := front, op := b pz, after := b " " }, { args := back, op := o.op, after := b " " }]
+        out [0, 5] o xs
+
 def gen (seed n : Nat) (tier : String) (emit0 : String → IO Unit) : IO Unit := do
   -- every case is emitted twice: as it is, and on a restricted view
   let ctr ← IO.mkRef 0
@@ -488,6 +686,8 @@ def gen (seed n : Nat) (tier : String) (emit0 : String → IO Unit) : IO Unit :=
         | none => pure ()
       | none => pure ()
   cutWindows emit0 seed (if tier == "thorough" then 60 else 8)
+  -- stream 5: operand-value sweep of the operators with numeric operands
+  opvSweep emitP (tier == "thorough")
   -- stream 4: exhaustive (node, operator) table, each pair followed by every probe and by nothing
   let allOps := catTable.map (·.1) ++ [b "foo"]
   for nd in allNodes do
